@@ -767,9 +767,197 @@ def _run_reentry(cfg) -> Dict[str, Any]:
     return {"outcome": f"reentry:{carrier}:" + ("rejecting-seen" if any(not ref_accepts(c) for c in conns) else "accepting-only"),
             "violations": viol[:12], "counters": cnt}
 
+# ---------------------------------------------------------------------------
+# (f) the version changes WHILE a batch line is being routed
+# ---------------------------------------------------------------------------
+def _run_inbatch_handshake(cfg) -> Dict[str, Any]:
+    """The server answers `initialize` with ONE batch line that also carries other members.  The line arrives
+    while no version is negotiated, so it is accepted: every valid member must be delivered, whatever version
+    the handshake records while the reader is still between members."""
+    import anyio
+    from chuk_mcp.protocol.messages.initialize.send_messages import send_initialize_with_client_tracking
+
+    preferred = SUPPORTED_PINNED[cfg["preferred"]]
+    answer = SUPPORTED_PINNED[cfg["answer"]]
+    pos = cfg["pos"]
+    others = cfg["others"]  # kinds of the other members, in order
+    c = _Client()
+    log: Dict[str, Any] = {}
+
+    def on_stdin(data: bytes):
+        for raw in data.split(b"\n"):
+            if not raw.strip():
+                continue
+            msg = json.loads(raw)
+            if msg.get("method") == "initialize":
+                resp = {**J, "id": msg["id"], "result": {"protocolVersion": answer, "capabilities": {},
+                                                          "serverInfo": {"name": "srv", "version": "1"}}}
+                rest = [member(k, 7, i) for i, k in enumerate(others)]
+                line = rest[:pos] + [resp] + rest[pos:]
+                log["line"] = line
+                log["resp_index"] = pos
+                c.proc.stdout.feed((json.dumps(line) + "\n").encode())
+
+    c.proc.on_stdin = on_stdin
+
+    async def body(client):
+        read, write = client.get_streams()
+        r = await send_initialize_with_client_tracking(read, write, client, timeout=5.0, preferred_version=preferred)
+        log["negotiated"] = r.protocolVersion
+        await c.q.settle()
+        log["got"] = c.drain(client)
+        log["pv"] = client.get_protocol_version()
+        # the next line is judged by the version the handshake recorded
+        line2 = line_for(["b", "RN"], 9)
+        c.proc.stdout.feed((json.dumps(line2) + "\n").encode())
+        await c.q.settle()
+        log["line2"] = line2
+        log["got2"] = c.drain(client)
+
+    status, val, errors = c.run(body)
+    where = (f"initialize (preferred {preferred}) answered inside one batch line at position {pos} with version {answer}, "
+             f"other members [{others}]")
+    viol: List[dict] = []
+    cnt: Dict[str, int] = {"sequences": 1, "steps": 2, "inbatch-handshakes": 1}
+    mode_after = "accepting" if ref_accepts(answer) else "rejecting"
+
+    def bad(cls, msg, **extra):
+        viol.append({"sig": {"class": cls, "scenario": "handshake-answered-inside-a-batch", "version-recorded": mode_after, **extra},
+                     "msg": f"{msg}; {where}"})
+
+    if status != "ok":
+        name = type(val).__name__ if val is not None else status
+        bad("did-not-finish", f"handshake ended with {status}: {val!r}", status=status, exc=name)
+        return {"outcome": "inbatch:" + status, "violations": viol, "counters": cnt}
+    line = log["line"]
+    notes_exp = [m for m in line if classify(m)[0] == "notification"]
+    after_exp = [m for m in line[log["resp_index"] + 1:] if classify(m)[0] is not None]
+    got = log["got"]
+    if not _same(got["notes"], notes_exp):
+        bad("valid-member-not-delivered" if len(got["notes"]) < len(notes_exp) else "members-reordered-or-duplicated",
+            f"notification stream {got['notes']} expected every notification member {notes_exp}", stream="notifications")
+    if not _same(got["read"], after_exp):
+        bad("valid-member-not-delivered" if len(got["read"]) < len(after_exp) else "members-reordered-or-duplicated",
+            f"read stream after the handshake holds {got['read']}, expected the members behind the response {after_exp}", stream="read")
+    rej = [x for x in got["stdin"] if b'"error"' in x]
+    if rej:
+        bad("accepted-batch-answered", f"error lines written for a batch that arrived before any version was negotiated: {rej[:1]}")
+    if log["pv"] != answer:
+        bad("handshake-version-not-tracked", f"client reports {log['pv']!r} after negotiating {answer!r}")
+    sub: List[dict] = []
+    judge_line(log["line2"], answer, log["got2"], "next batch line; " + where, sub, cnt)
+    viol.extend(sub)
+    if errors:
+        bad("loop-error", f"{errors[:2]}")
+    return {"outcome": "inbatch:" + mode_after, "violations": viol[:12], "counters": cnt}
+
+
+SWITCH_V0 = [None, "2025-03-26", "2025-06-18"]
+
+
+def _switch_cases() -> List[Dict[str, Any]]:
+    out = []
+    for n in range(2, 5):
+        for combo in itertools.product(KINDS, repeat=n):
+            kinds = "".join(combo)
+            valid = sum(1 for k in kinds if k != "X")
+            for k in range(1, valid):
+                out.append({"kinds": kinds, "k": k})
+    return out
+
+
+def _run_switch(cfg) -> Dict[str, Any]:
+    """A consumer of the read stream calls set_protocol_version(v) as soon as it has received the k-th message,
+    i.e. while the reader is still routing the rest of the same batch line."""
+    import asyncio
+
+    import anyio
+
+    v0 = SWITCH_V0[cfg["v0"]]
+    v = VERSIONS[cfg["v"]]
+    viol: List[dict] = []
+    cnt: Dict[str, int] = {"sequences": 0, "steps": 0, "mid-batch-switches": 0}
+    outs = set()
+    for case in _switch_cases()[cfg["lo"]:cfg["hi"]]:
+        kinds, k = case["kinds"], case["k"]
+        c = _Client()
+        log: Dict[str, Any] = {"received": [], "switched_at": None}
+
+        async def body(client, c=c, log=log, kinds=kinds, k=k):
+            read, _w = client.get_streams()
+            if v0 is not None:
+                client.set_protocol_version(v0)
+
+            async def consumer():
+                while True:
+                    try:
+                        m = await read.receive()
+                    except (anyio.EndOfStream, anyio.ClosedResourceError):
+                        return
+                    log["received"].append(_dump(m) if not isinstance(m, list) else {"__python_list__": len(m)})
+                    if len(log["received"]) == k and log["switched_at"] is None:
+                        log["switched_at"] = len(log["received"])
+                        client.set_protocol_version(v)
+
+            t = asyncio.ensure_future(consumer())
+            await c.q.settle()
+            line1 = line_for(["b", kinds], 1)
+            c.proc.stdout.feed((json.dumps(line1) + "\n").encode())
+            await c.q.settle()
+            log["line1"] = line1
+            log["got1"] = {"read": list(log["received"]), "notes": [], "stdin": list(c.proc.stdin.sends)}
+            c.proc.stdin.sends.clear()
+            n1 = len(log["received"])
+            log["version_after_line1"] = client.get_protocol_version()
+            line2 = line_for(["b", "RN"], 2)
+            c.proc.stdout.feed((json.dumps(line2) + "\n").encode())
+            await c.q.settle()
+            log["line2"] = line2
+            log["got2"] = {"read": list(log["received"][n1:]), "notes": [], "stdin": list(c.proc.stdin.sends)}
+            t.cancel()
+            try:
+                await t
+            except BaseException:  # noqa: BLE001
+                pass
+
+        status, val, errors = c.run(body)
+        cnt["sequences"] += 1
+        where = (f"version {v0!r} in force, batch [{kinds}] arrives, the consumer calls set_protocol_version({v!r}) "
+                 f"after receiving member #{k}")
+        if status != "ok":
+            viol.append({"sig": {"class": "did-not-finish", "scenario": "version-change-while-routing", "status": status},
+                         "msg": f"{status}: {val!r}; {where}"})
+            outs.add(status)
+            continue
+        cnt["steps"] += 2
+        switched = log["switched_at"] is not None
+        cnt["mid-batch-switches"] += 1 if switched else 0
+        # line 1: decided when the line arrived (v0); line 2: decided by the version then in force
+        sub: List[dict] = []
+        judge_line(log["line1"], v0, log["got1"], "first line; " + where, sub, cnt)
+        for x in sub:
+            x["sig"] = {**x["sig"], "scenario": "version-change-while-routing",
+                        "switch": ("accepting->" + ("accepting" if ref_accepts(v) else "rejecting")) if switched else "none"}
+        viol.extend(sub)
+        now = v if switched else v0
+        if log["version_after_line1"] != now:
+            viol.append({"sig": {"class": "client-state-differs-from-model", "scenario": "version-change-while-routing"},
+                         "msg": f"get_protocol_version()={log['version_after_line1']!r}, model {now!r}; {where}"})
+        sub = []
+        judge_line(log["line2"], now, log["got2"], "second line; " + where, sub, cnt)
+        viol.extend(sub)
+        if errors:
+            viol.append({"sig": {"class": "loop-error", "scenario": "version-change-while-routing"}, "msg": f"{errors[:2]}; {where}"})
+        outs.add("switched" if switched else "not-switched")
+    return {"outcome": "switch:" + "+".join(sorted(outs)), "violations": viol[:12], "counters": cnt, "v0": v0, "v": v}
+
 
 def run_one(ctl: explorer.Ctl, cfg: Dict[str, Any]) -> Dict[str, Any]:
     part = cfg["part"]
+    if part == "inbatch":
+        return _run_inbatch_handshake(cfg)
+    if part == "switch":
+        return _run_switch(cfg)
     if part == "congested":
         return _run_congested(cfg)
     if part == "reentry":
@@ -836,6 +1024,7 @@ def run(tier: str, only=None) -> core.Result:
     cfgs = [{"part": "seq", "prefix": list(p), "last": "small"} for p in itertools.product(small_idx, repeat=depth - 1)]
     out = explorer.explore(RUN, cfgs)
     sched.absorb(res, f"b-sequences-depth{depth}-batches-le2", RUN, out, cfgs)
+    sched.debug_pass(res, f"b-sequences-depth{depth}-batches-le2", RUN, cfgs, every=(25 if tier == "quick" else 500))
     samples += _pick(f"b-sequences-depth{depth}-batches-le2", cfgs)
     if tier == "quick":
         cfgs = [{"part": "seq", "prefix": [a], "last": "full"} for a in full_idx]
@@ -846,15 +1035,19 @@ def run(tier: str, only=None) -> core.Result:
     out = explorer.explore(RUN, cfgs)
     sched.absorb(res, name, RUN, out, cfgs)
     samples += _pick(name, cfgs)
+    sched.debug_pass(res, name, RUN, cfgs, every=(8 if tier == "quick" else 160))
+    sched.debug_pass(res, "a-decision-function-date-grid", RUN, [{"part": "grid", "year": 2025}, {"part": "specials"}])
 
     # (c) handshake and invalid forms
     cfgs = [{"part": "handshake", "preferred": p, "answer": a} for p in range(3) for a in range(3)]
     out = explorer.explore(RUN, cfgs)
     sched.absorb(res, "c-real-handshake-then-batch", RUN, out, cfgs)
+    sched.debug_pass(res, "c-real-handshake-then-batch", RUN, cfgs, every=4)
     samples += _pick("c-real-handshake-then-batch", cfgs)
     cfgs = [{"part": "forms", "form": i, "version": v} for i in range(len(INVALID_FORMS)) for v in [None] + VERSIONS]
     out = explorer.explore(RUN, cfgs)
     sched.absorb(res, "c-invalid-member-forms", RUN, out, cfgs)
+    sched.debug_pass(res, "c-invalid-member-forms", RUN, cfgs, every=3)
     samples += _pick("c-invalid-member-forms", cfgs)
 
     # (d) congested outgoing side, (e) re-entered transport
@@ -863,6 +1056,7 @@ def run(tier: str, only=None) -> core.Result:
             for bi in range(len(CONGEST_BATCHES))]
     out = explorer.explore(RUN, cfgs)
     sched.absorb(res, "d-rejection-while-outgoing-side-congested", RUN, out, cfgs)
+    sched.debug_pass(res, "d-rejection-while-outgoing-side-congested", RUN, cfgs, every=5)
     samples += _pick("d-rejection-while-outgoing-side-congested", cfgs)
     nv = len(REENTRY_VERSIONS)
     short3 = [0, 1, 2]  # None, 2025-06-18, 2025-03-26
@@ -873,9 +1067,29 @@ def run(tier: str, only=None) -> core.Result:
     out = explorer.explore(RUN, cfgs)
     sched.absorb(res, "e-same-object-entered-again", RUN, out, cfgs)
     samples += _pick("e-same-object-entered-again", cfgs)
+    sched.debug_pass(res, "e-same-object-entered-again", RUN, cfgs, every=5)
+
+    # (f) version changes while a batch line is being routed
+    cfgs = [{"part": "inbatch", "preferred": p, "answer": a, "pos": pos, "others": "".join(o)}
+            for p in range(3) for a in range(3) for n in (1, 2, 3) for o in itertools.product("NR", repeat=n) for pos in range(n + 1)]
+    out = explorer.explore(RUN, cfgs)
+    sched.absorb(res, "f-handshake-answered-inside-a-batch", RUN, out, cfgs)
+    samples += _pick("f-handshake-answered-inside-a-batch", cfgs)
+    sched.debug_pass(res, "f-handshake-answered-inside-a-batch", RUN, cfgs, every=3)
+    ncase = len(_switch_cases())
+    cfgs = [{"part": "switch", "v0": a, "v": b, "lo": lo, "hi": min(ncase, lo + 20)}
+            for a in range(len(SWITCH_V0)) for b in range(len(VERSIONS)) for lo in range(0, ncase, 20)]
+    out = explorer.explore(RUN, cfgs)
+    sched.absorb(res, "f-set-version-while-routing", RUN, out, cfgs)
+    samples += _pick("f-set-version-while-routing", cfgs)
+    sched.debug_pass(res, "f-set-version-while-routing", RUN, cfgs, every=9)
 
     cnt: Dict[str, int] = {}
+    dbg_exec = 0
     for pname, p in res.parts.items():
+        if pname.endswith("+debug-logging"):
+            dbg_exec += p["executions"]  # re-runs of cases already counted: kept out of the headline numbers
+            continue
         for k, v in p["counters"].items():
             if k.startswith(("tr:", "st:")):
                 cnt[k] = 1
@@ -902,7 +1116,10 @@ def run(tier: str, only=None) -> core.Result:
     cov["empty_batch_observed"] = {k: v for k, v in cnt.items() if k.startswith("empty-batch/")}
     cov["single_messages"] = {k: v for k, v in cnt.items() if k.startswith("single-")}
     cov["reentered_bare_client_recorded"] = {k: v for k, v in cnt.items() if k.startswith("reentered-bare-client/")}
+    cov["debug_logging_reruns"] = dbg_exec
     cov["congested_scenarios"] = cnt.get("congested-scenarios", 0)
+    cov["handshakes_answered_inside_a_batch"] = cnt.get("inbatch-handshakes", 0)
+    cov["mid_batch_version_switches"] = cnt.get("mid-batch-switches", 0)
     cov["reentry_scenarios"] = cnt.get("reentry-scenarios", 0)
     cov["operation_alphabet"] = {"small": [op_name(o) for o in OPS_SMALL], "full_size": len(OPS_FULL)}
     cov["depth"] = depth
@@ -923,7 +1140,12 @@ def run(tier: str, only=None) -> core.Result:
         f"{CONGEST_N} messages (buffer is 100) before / after {len(CONGEST_BATCHES)} batch-line sets arrive at {CONGEST_VERSIONS}, then the child resumes: "
         "the child's stdin must hold every application message once, in order, and exactly one -32600 line per rejected batch line. "
         "(e) the same StdioTransport object (and, recorded only, the same bare StdioClient) entered 2-3 times with every version pair / triple: "
-        "every new connection is judged as 'no version negotiated' until its own set_protocol_version. distinct_nontrivial = distinct observation digests of the blocks"
+        "every new connection is judged as 'no version negotiated' until its own set_protocol_version. (f) the version changes while a line is being "
+        "routed: the server answers initialize inside ONE batch line (3x3 preferred x answered version, 1-3 other members over {N,R}, response at every "
+        "position) - every notification member must reach the notification stream, every member behind the response the read stream, no error line, and "
+        "the next line is judged by the recorded version; a consumer calls set_protocol_version(v) right after receiving member #k of a batch "
+        "(every batch of 2-4 members over {R,N,X}, every k < number of valid members, 3 initial x 5 new versions) - the decision belongs to the LINE at "
+        "arrival, the following line to the new version. A slice of every part is re-run with library logging at DEBUG. distinct_nontrivial = distinct observation digests of the blocks"
     )
     res.assumptions = [
         "the scripted process implements the subset of anyio.abc.Process the transport uses",
@@ -938,6 +1160,9 @@ def run(tier: str, only=None) -> core.Result:
         "a bare StdioClient object that is entered a second time is outside the statement (which connection its stored version belongs to is not defined): "
         "what it does with the first batch of the new connection is recorded under reentered_bare_client_recorded, not judged; "
         "StdioTransport creates a fresh client per entry, so its new connection has no negotiated version and must accept batches",
+        "accept/reject is decided per batch LINE when it arrives: a version recorded while its members are still being routed applies from the next line on",
+        "handshake answered inside a batch: members in front of the response are consumed by the waiting request (send_message skips them); their delivery is "
+        "observed on the notification stream, members behind the response on the read stream",
         "under congestion the position of the -32600 line among the application's messages is not prescribed, only its presence exactly once",
     ]
     return res
